@@ -30,7 +30,7 @@ CHECKS += [
     {
         "property_id": "C18", "engine": "crosshair+symx", "category": "model_checking",
         "technique": "CrossHair symbolic execution (z3) of State/AnnotatedState/herald utilities with symbolic lists and ints; symx+z3 for dB conversions modulo log/exp axioms",
-        "text": "11 CrossHair conditions confirmed over all paths within list-length/occupation bounds: equality iff occupations equal (and equal str, the hash input), concatenation/merge/slice algebra, immutability, annotated-state label-order invariance, herald insert/remove round trip for any herald positions and key order, fock_basis counting, seed validation; dB<->decimal round trips decided by z3 modulo the stated log/exp axioms.",
+        "text": "12 CrossHair conditions confirmed over all paths within list-length/occupation bounds: equality iff occupations equal (and equal str, the hash input), concatenation/merge/slice algebra, immutability (also of annotated states through every accessor that returns label lists), annotated-state label-order invariance, herald insert/remove round trip for any herald positions and key order, fock_basis counting, seed validation; dB<->decimal round trips decided by z3 modulo the stated log/exp axioms.",
         "design_ref": "DESIGN.md section 4 C18", "note": XH_NOTE,
     },
 ]
